@@ -1,26 +1,220 @@
-(* MODEL of optimizer.rs: serialize_filter_expression (the filter part of create_memo_key), and a collision.
-   Comparison(var, op, value) is rendered `{var}{op}'{value}'` with the constant spliced in unescaped, so a constant that
-   contains an apostrophe can imitate the rest of the key: two DIFFERENT conditions over the same sub-plan get the same
-   memo key, and find_best_plan_recursive returns the first one's physical plan for the second. *)
+(* MODEL of optimizer.rs: serialize_filter_expression (the filter part of create_memo_key).
+   Since the repair 276543a a comparison is rendered `{var}{op}{value:?}`: Rust's Debug of a str wraps it in double
+   quotes and escapes the double quote and the backslash (the control / non-printable characters that Debug also escapes are outside the
+   modelled alphabet).  `ser_expr` models exactly that and is proved injective (even prefix-free) on the filter
+   expressions of the modelled fragment.  `ser_expr_unescaped` is the serialization before the repair
+   (`{var}{op}'{value}'`), kept with its collision as a regression lemma.
+   Not proved: injectivity of the whole plan key (serialize_logical_plan); its other components are rendered with {:?}
+   of structured values or are grammar-restricted identifiers. *)
 Require Import KV.Sparql.Base KV.Sparql.Syntax KV.Sparql.PlanEquiv.
-Require Import DecimalString Decimal.
+Require Import Ascii DecimalString Decimal DecimalN.
 Local Open Scope string_scope.
 
-Definition show_var (x : var) : string := append "?v" (NilZero.string_of_uint (N.to_uint x)).
+(* variable names as the parser keeps them: `?` followed by name characters; here ?v<decimal> *)
+Definition show_var (x : var) : string := append "?v" (NilEmpty.string_of_uint (N.to_uint x)).
 Definition show_op (o : cmpop) : string :=
   match o with OEq => "=" | ONe => "!=" | OLt => "<" | OLe => "<=" | OGt => ">" | OGe => ">=" end.
+(* the `value` field of ConditionExpression::Comparison: a variable's text or the resolved constant *)
+Definition valstr (r : tm) : string := match r with TV y => show_var y | TC c => c end.
+
+(* ---- before the repair ---- *)
+Fixpoint ser_expr_unescaped (e : expr) : string :=
+  match e with
+  | ECmp op l r => append (show_var l) (append (show_op op) (append "'" (append (valstr r) "'")))
+  | EAnd a b => append "(" (append (ser_expr_unescaped a) (append " AND " (append (ser_expr_unescaped b) ")")))
+  | EOr a b => append "(" (append (ser_expr_unescaped a) (append " OR " (append (ser_expr_unescaped b) ")")))
+  | ENot a => append "NOT(" (append (ser_expr_unescaped a) ")")
+  end.
+
+(* two different conditions whose constants contain an apostrophe (coll1 / coll2 below) *)
+Definition coll1 : expr := EAnd (ECmp OEq 0%N (TC "a' AND ?v1='b")) (ECmp OEq 2%N (TC "c")).
+Definition coll2 : expr := EAnd (ECmp OEq 0%N (TC "a")) (ECmp OEq 1%N (TC "b' AND ?v2='c")).
+
+Lemma unescaped_key_collision : expr_eqb coll1 coll2 = false /\ ser_expr_unescaped coll1 = ser_expr_unescaped coll2.
+Proof. vm_compute. split; reflexivity. Qed.
+
+(* ---- after the repair: {:?} of the constant ---- *)
+Definition dq : ascii := """"%char.
+Definition bs : ascii := "\"%char.
+Definition esc_char (c : ascii) : string :=
+  if Ascii.eqb c dq then String bs (String dq EmptyString)
+  else if Ascii.eqb c bs then String bs (String bs EmptyString)
+  else String c EmptyString.
+Fixpoint esc (s : string) : string :=
+  match s with EmptyString => EmptyString | String c r => append (esc_char c) (esc r) end.
+Definition dbg (s : string) : string := String dq (append (esc s) (String dq EmptyString)).
 
 Fixpoint ser_expr (e : expr) : string :=
   match e with
-  | ECmp op l r => append (show_var l) (append (show_op op) (append "'" (append (match r with TV y => show_var y | TC c => c end) "'")))
+  | ECmp op l r => append (show_var l) (append (show_op op) (dbg (valstr r)))
   | EAnd a b => append "(" (append (ser_expr a) (append " AND " (append (ser_expr b) ")")))
   | EOr a b => append "(" (append (ser_expr a) (append " OR " (append (ser_expr b) ")")))
   | ENot a => append "NOT(" (append (ser_expr a) ")")
   end.
 
-(* FILTER(?v0 = "a' AND ?v1='b" && ?v2 = "c")   versus   FILTER(?v0 = "a" && ?v1 = "b' AND ?v2='c") *)
-Definition coll1 : expr := EAnd (ECmp OEq 0%N (TC "a' AND ?v1='b")) (ECmp OEq 2%N (TC "c")).
-Definition coll2 : expr := EAnd (ECmp OEq 0%N (TC "a")) (ECmp OEq 1%N (TC "b' AND ?v2='c")).
+Lemma repaired_key_separates : ser_expr coll1 <> ser_expr coll2.
+Proof. vm_compute. discriminate. Qed.
 
-Lemma memo_key_collision : expr_eqb coll1 coll2 = false /\ ser_expr coll1 = ser_expr coll2.
-Proof. vm_compute. split; reflexivity. Qed.
+(* ---- injectivity ---- *)
+Lemma append_assoc : forall a b c : string, append (append a b) c = append a (append b c).
+Proof. induction a; intros; cbn; [reflexivity | rewrite IHa; reflexivity]. Qed.
+
+(* Debug of a string is self-delimiting *)
+Lemma esc_prefix : forall s s' t t',
+  append (esc s) (String dq t) = append (esc s') (String dq t') -> s = s' /\ t = t'.
+Proof.
+  induction s as [|c r IH]; intros [|c' r'] t t' H.
+  - cbn in H. inversion H. auto.
+  - exfalso. cbn [esc] in H. unfold esc_char in H.
+    destruct (Ascii.eqb c' dq) eqn:E1; [cbn in H; inversion H|].
+    destruct (Ascii.eqb c' bs) eqn:E2; [cbn in H; inversion H|].
+    cbn in H. inversion H. subst c'. rewrite Ascii.eqb_refl in E1. discriminate.
+  - exfalso. cbn [esc] in H. unfold esc_char in H.
+    destruct (Ascii.eqb c dq) eqn:E1; [cbn in H; inversion H|].
+    destruct (Ascii.eqb c bs) eqn:E2; [cbn in H; inversion H|].
+    cbn in H. inversion H. subst c. rewrite Ascii.eqb_refl in E1. discriminate.
+  - cbn [esc] in H. rewrite !append_assoc in H. unfold esc_char in H.
+    destruct (Ascii.eqb c dq) eqn:E1; destruct (Ascii.eqb c' dq) eqn:F1.
+    + apply Ascii.eqb_eq in E1. apply Ascii.eqb_eq in F1. subst. cbn in H. inversion H as [H1].
+      destruct (IH _ _ _ H1). subst. auto.
+    + exfalso. destruct (Ascii.eqb c' bs) eqn:F2; cbn in H; inversion H.
+      subst c'. rewrite Ascii.eqb_refl in F2. discriminate.
+    + exfalso. destruct (Ascii.eqb c bs) eqn:E2; cbn in H; inversion H.
+      subst c. rewrite Ascii.eqb_refl in E2. discriminate.
+    + destruct (Ascii.eqb c bs) eqn:E2; destruct (Ascii.eqb c' bs) eqn:F2.
+      * apply Ascii.eqb_eq in E2. apply Ascii.eqb_eq in F2. subst. cbn in H. inversion H as [H1].
+        destruct (IH _ _ _ H1). subst. auto.
+      * exfalso. cbn in H. inversion H. subst c'. rewrite Ascii.eqb_refl in F2. discriminate.
+      * exfalso. cbn in H. inversion H. subst c. rewrite Ascii.eqb_refl in E2. discriminate.
+      * cbn in H. inversion H as [[H0 H1]]. destruct (IH _ _ _ H1). subst. auto.
+Qed.
+
+Lemma dbg_prefix : forall s s' t t', append (dbg s) t = append (dbg s') t' -> s = s' /\ t = t'.
+Proof.
+  intros s s' t t' H. unfold dbg in H. cbn [append] in H. inversion H as [H1].
+  rewrite !append_assoc in H1. cbn [append] in H1. apply esc_prefix in H1. exact H1.
+Qed.
+
+(* name characters versus the delimiters that follow a name *)
+Definition is_digit (c : ascii) : bool :=
+  existsb (Ascii.eqb c) ["0"; "1"; "2"; "3"; "4"; "5"; "6"; "7"; "8"; "9"]%char.
+Definition op_start (c : ascii) : bool := existsb (Ascii.eqb c) ["="; "!"; "<"; ">"]%char.
+
+Fixpoint all_digits (s : string) : bool :=
+  match s with EmptyString => true | String c r => is_digit c && all_digits r end.
+
+Lemma uint_digits : forall d, all_digits (NilEmpty.string_of_uint d) = true.
+Proof. induction d; cbn; auto. Qed.
+
+Lemma digits_prefix : forall u u' c t c' t', all_digits u = true -> all_digits u' = true ->
+  is_digit c = false -> is_digit c' = false ->
+  append u (String c t) = append u' (String c' t') -> u = u' /\ String c t = String c' t'.
+Proof.
+  induction u as [|a r IH]; intros [|a' r'] c t c' t' D D' N N' H; cbn in *.
+  - auto.
+  - exfalso. inversion H. subst. apply andb_true_iff in D'. destruct D'. congruence.
+  - exfalso. inversion H. subst. apply andb_true_iff in D. destruct D. congruence.
+  - inversion H. subst. apply andb_true_iff in D. apply andb_true_iff in D'.
+    destruct (IH r' c t c' t') as [E1 E2]; try tauto. subst. auto.
+Qed.
+
+Lemma show_var_inj_prefix : forall x y c t c' t', is_digit c = false -> is_digit c' = false ->
+  append (show_var x) (String c t) = append (show_var y) (String c' t') -> x = y /\ String c t = String c' t'.
+Proof.
+  intros x y c t c' t' N N' H. unfold show_var in H. cbn [append] in H. inversion H as [H1].
+  apply digits_prefix in H1; auto using uint_digits. destruct H1 as [E1 E2]. split; auto.
+  assert (E : NilEmpty.uint_of_string (NilEmpty.string_of_uint (N.to_uint x)) = NilEmpty.uint_of_string (NilEmpty.string_of_uint (N.to_uint y)))
+    by (rewrite E1; reflexivity).
+  rewrite !NilEmpty.usu in E. inversion E as [E'].
+  rewrite <- (Unsigned.of_to x), <- (Unsigned.of_to y), E'. reflexivity.
+Qed.
+
+Lemma show_var_inj : forall x y, show_var x = show_var y -> x = y.
+Proof.
+  intros x y H. assert (H' : append (show_var x) "=" = append (show_var y) "=") by (rewrite H; reflexivity).
+  apply show_var_inj_prefix in H'; [tauto | reflexivity | reflexivity].
+Qed.
+
+Lemma op_dbg_prefix : forall o o' s s' t t',
+  append (show_op o) (append (dbg s) t) = append (show_op o') (append (dbg s') t') -> o = o' /\ s = s' /\ t = t'.
+Proof.
+  intros o o' s s' t t' H.
+  destruct o, o'; cbn [show_op append] in H; unfold dbg in H; cbn [append] in H;
+    try (inversion H; fail);
+    (inversion H as [H1]; split; [reflexivity|];
+     apply (dbg_prefix s s' t t'); unfold dbg; cbn [append]; f_equal; exact H1).
+Qed.
+
+(* a constant is not mistaken for a variable: the engine itself reads a `value` that starts with `?` as a variable, so
+   a constant with that shape IS the same condition; the statement is about constants that do not start with `?` *)
+Definition const_ok (r : tm) : bool :=
+  match r with TC (String c _) => negb (Ascii.eqb c "?"%char) | _ => true end.
+Fixpoint consts_ok (e : expr) : bool :=
+  match e with
+  | ECmp _ _ r => const_ok r
+  | EAnd a b | EOr a b => consts_ok a && consts_ok b
+  | ENot a => consts_ok a
+  end.
+
+Lemma valstr_inj : forall r r', const_ok r = true -> const_ok r' = true -> valstr r = valstr r' -> r = r'.
+Proof.
+  intros [x|c] [y|d] K K' H; cbn in *.
+  - apply show_var_inj in H. subst. reflexivity.
+  - exfalso. subst d. unfold show_var in K'. cbn in K'. discriminate.
+  - exfalso. subst c. unfold show_var in K. cbn in K. discriminate.
+  - subst. reflexivity.
+Qed.
+
+(* the serialization is prefix-free, hence injective *)
+Theorem ser_expr_prefix_free : forall e e' t t', consts_ok e = true -> consts_ok e' = true ->
+  append (ser_expr e) t = append (ser_expr e') t' -> e = e' /\ t = t'.
+Proof.
+  induction e as [op l r|a IHa b IHb|a IHa b IHb|a IHa]; intros e' t t' K K' H.
+  - destruct e' as [op' l' r'|a' b'|a' b'|a']; cbn [ser_expr] in H.
+    + rewrite !append_assoc in H.
+      assert (Hs : forall o s u, exists c w, append (show_op o) (append (dbg s) u) = String c w /\ is_digit c = false).
+      { intros o s u. destruct o; cbn; eexists; eexists; split; reflexivity. }
+      destruct (Hs op (valstr r) t) as (c & w & E1 & N1). destruct (Hs op' (valstr r') t') as (c' & w' & E2 & N2).
+      rewrite E1, E2 in H. apply show_var_inj_prefix in H; auto. destruct H as [El H]. subst l'.
+      rewrite <- E1, <- E2 in H. apply op_dbg_prefix in H. destruct H as (Eo & Ev & Et). subst.
+      apply valstr_inj in Ev; auto. subst. auto.
+    + exfalso. unfold show_var in H. cbn in H. inversion H.
+    + exfalso. unfold show_var in H. cbn in H. inversion H.
+    + exfalso. unfold show_var in H. cbn in H. inversion H.
+  - cbn [consts_ok] in K. apply andb_true_iff in K. destruct K as [Ka Kb].
+    destruct e' as [op' l' r'|a' b'|a' b'|a']; cbn [ser_expr] in H.
+    + exfalso. unfold show_var in H. cbn in H. inversion H.
+    + cbn [consts_ok] in K'. apply andb_true_iff in K'. destruct K' as [Ka' Kb'].
+      rewrite !append_assoc in H. cbn [append] in H. inversion H as [H1].
+      apply IHa in H1; auto. destruct H1 as [Ea H1]. subst a'. cbn [append] in H1. inversion H1 as [H2].
+      apply IHb in H2; auto. destruct H2 as [Eb H2]. subst b'. cbn [append] in H2. inversion H2. auto.
+    + exfalso. cbn [consts_ok] in K'. apply andb_true_iff in K'. destruct K' as [Ka' Kb'].
+      rewrite !append_assoc in H. cbn [append] in H. inversion H as [H1].
+      apply IHa in H1; auto. destruct H1 as [_ H1]. cbn [append] in H1. inversion H1.
+    + exfalso. cbn in H. inversion H.
+  - cbn [consts_ok] in K. apply andb_true_iff in K. destruct K as [Ka Kb].
+    destruct e' as [op' l' r'|a' b'|a' b'|a']; cbn [ser_expr] in H.
+    + exfalso. unfold show_var in H. cbn in H. inversion H.
+    + exfalso. cbn [consts_ok] in K'. apply andb_true_iff in K'. destruct K' as [Ka' Kb'].
+      rewrite !append_assoc in H. cbn [append] in H. inversion H as [H1].
+      apply IHa in H1; auto. destruct H1 as [_ H1]. cbn [append] in H1. inversion H1.
+    + cbn [consts_ok] in K'. apply andb_true_iff in K'. destruct K' as [Ka' Kb'].
+      rewrite !append_assoc in H. cbn [append] in H. inversion H as [H1].
+      apply IHa in H1; auto. destruct H1 as [Ea H1]. subst a'. cbn [append] in H1. inversion H1 as [H2].
+      apply IHb in H2; auto. destruct H2 as [Eb H2]. subst b'. cbn [append] in H2. inversion H2. auto.
+    + exfalso. cbn in H. inversion H.
+  - cbn [consts_ok] in K.
+    destruct e' as [op' l' r'|a' b'|a' b'|a']; cbn [ser_expr] in H.
+    + exfalso. unfold show_var in H. cbn in H. inversion H.
+    + exfalso. cbn in H. inversion H.
+    + exfalso. cbn in H. inversion H.
+    + cbn [consts_ok] in K'. rewrite !append_assoc in H. cbn [append] in H. inversion H as [H1].
+      apply IHa in H1; auto. destruct H1 as [Ea H1]. subst a'. cbn [append] in H1. inversion H1. auto.
+Qed.
+
+Theorem ser_expr_injective : forall e e', consts_ok e = true -> consts_ok e' = true -> ser_expr e = ser_expr e' -> e = e'.
+Proof.
+  intros e e' K K' H.
+  assert (H' : append (ser_expr e) "" = append (ser_expr e') "") by (rewrite H; reflexivity).
+  apply ser_expr_prefix_free in H'; tauto.
+Qed.
